@@ -1,10 +1,12 @@
 #!/bin/sh
-# runall.sh [tier]: run every registered check in turn, print exit codes and VIOLATION / KNOWN-FINDING counts
+# runall.sh [tier] [seed]: run every registered check in turn, print exit codes and VIOLATION / KNOWN-FINDING counts
 cd /verif
 t=${1:-quick}
+[ -n "$2" ] && export VERIF_SEED=$2
+mkdir -p out
 for p in C01 C02 C03 C04 C05 C06 C07 C08 C09 C10 C11 C12 C13 C14 C15 C16 C17 C18 C19 C20; do
   s=$(date +%s)
-  bin/check $p --tier $t > out/runall-$p.log 2>&1; rc=$?
+  timeout 3600 bin/check $p --tier $t > out/runall-$p.log 2>&1; rc=$?
   e=$(date +%s)
   echo "$p rc=$rc t=$((e-s))s viol=$(grep -c '^VIOLATION' out/runall-$p.log) known=$(grep -c '^KNOWN-FINDING' out/runall-$p.log)"
 done
